@@ -9,6 +9,10 @@
 (* The caller's argument objects (st.av) are part of the state: Bind / edit events change them,   *)
 (* calls that name them are stepped with their CURRENT value, and after EVERY event the logged     *)
 (* objects must equal st.av (argument_changed).                                                    *)
+(* Round 5: the same judgement on BIG observations - tables of 17 .. 1025 rows that are a small   *)
+(* pattern scaled up (NewBig = BigT of DictableOps), pushed through masks, slices, positions,      *)
+(* copies, concatenations; n-ary concat calls with up to 65 operands; histories of up to 260      *)
+(* calls.  The scaling laws that tie these to the small tables TLC enumerates are ScaleLaws.      *)
 EXTENDS DictableOps, Batch
 
 St0 == [heap |-> <<>>, reg |-> [r \in Regs |-> 0], av |-> NoArgs]
@@ -60,6 +64,11 @@ Apply(st, e) ==
       [] e.op = "TakeIx"    -> DoAlloc(st, e.rd, TakeT(TT(st, e.r), st.av.ix))
       [] e.op \in {"AddRecs", "IAddRecs"} -> DoAlloc(st, e.rd, ConcatT(TT(st, e.r), FromRecords(st.av.recs).t))
       [] e.op \in {"AddRec1", "IAddRec1"} -> DoAlloc(st, e.rd, ConcatT(TT(st, e.r), RecordT(st.av.recs[1])))
+      \* round 5: three or more operands in one call; a small pattern scaled up to n rows; masks / columns that are a cycled pattern
+      [] e.op = "ConcatN"   -> DoAlloc(st, e.rd, ConcatManyT([k \in 1..Len(e.ops) |-> IF e.ops[k][1] = "r" THEN TT(st, e.ops[k][2]) ELSE RecordT(e.ops[k][3])]))
+      [] e.op = "NewBig"    -> DoAlloc(st, e.rd, Ok(BigT(Construct(e.seed).t, e.n, e.b)))
+      [] e.op = "MaskCyc"   -> DoAlloc(st, e.rd, MaskSeqT(TT(st, e.r), CycleTo(e.pat, NR(TT(st, e.r)))))
+      [] e.op = "SetColCyc" -> DoInPlace(st, e.r, SetColT(TT(st, e.r), e.c, CycArg(e.pat, NR(TT(st, e.r)))))
       [] e.op \in {"Copy", "NoFilter"} -> DoAlloc(st, e.rd, Ok(TT(st, e.r)))
       [] e.op \in {"AddNone", "ConcatOne", "IAddNone"} -> [heap |-> st.heap, reg |-> [st.reg EXCEPT ![e.rd] = st.reg[e.r]], out |-> "ok"]
 
